@@ -9,8 +9,11 @@ use sourcemap::{DecodedMap, SourceMap, SourceMapHermes, SourceMapIndex};
 
 pub const BIG: i64 = 1 << 30; // numbers >= 2^30 are clamped to this sentinel (TLC integers are 32 bit)
 pub fn num(n: u32) -> i64 {
-    // u32::MAX keeps its own stand-in (2^31 - 1, the largest number the judge can hold); other numbers >= 2^30 are clamped
-    if n == u32::MAX { 2147483647 } else if (n as i64) >= BIG { BIG } else { n as i64 }
+    // The judge holds numbers below 2^31.  Numbers >= 2^30 are logged through a MONOTONE map onto a few classes, so
+    // that order is preserved (not distances): [2^30, 2^31-1) -> BIG, 2^31-1 -> BIG+1, [2^31, 2^31+5) -> BIG+2,
+    // [2^31+5, u32::MAX) -> BIG+3, u32::MAX -> 2^31-1 (MAXU).  Inputs use the same stand-ins (maps::u).
+    let v = n as i64;
+    if n == u32::MAX { 2147483647 } else if v >= (1 << 31) + 5 { BIG + 3 } else if v >= 1 << 31 { BIG + 2 } else if v == (1 << 31) - 1 { BIG + 1 } else if v >= BIG { BIG } else { v }
 }
 pub fn idx(n: u32) -> i64 {
     if n == !0 { -1 } else { num(n) }
